@@ -29,7 +29,7 @@ from collections import Counter
 from typing import Any, Callable, Iterable, Iterator, Optional
 
 VERIF = os.path.dirname(os.path.dirname(os.path.abspath(__file__)))
-REPO_SRC = '/repo/src'
+REPO_SRC = os.environ.get('VERIF_REPO_SRC', '/repo/src')   # override only for testing seeded changes in scratch worktrees
 GUARD = 'WELL_ID_DLISWRITER_VERIF'
 PY = '/venv/bin/python'
 
